@@ -67,7 +67,8 @@ Proof.
   rewrite (eval_ascal R 0 1 Rplus Rmult Rminus Ropp RTheory). rewrite IHc. reflexivity.
 Qed.
 
-(* __sub__ as written returns (longer - shorter); for equal lengths other - self *)
+(* the former body of __sub__ (sorted by length; still recognised by the translator as asub_sorted):
+   it returned (longer - shorter), and other - self for equal lengths *)
 Theorem asub_sorted_refuted : exists a b x, pevR (asub_sortedR a b) x <> pevR a x - pevR b x.
 Proof. exists [1], [2], 0. cbn. lra. Qed.
 
